@@ -3,7 +3,7 @@ SPEC = {
     "level": "proof",
     "lean_modules": ["PallasVerif.Props.C16"],
     "required_theorems": ["never_panics", "iterations_le_maxN", "approx_eq_taylor_prefix", "verdict_spec", "unknown_otherwise",
-                          "lt_sound", "gt_sound_partial", "sound_partial", "gt_window_witness_run", "gt_window_witness_below",
+                          "lt_sound", "gt_sound_partial", "sound_partial", "sound_slack_partial", "gt_window_witness_run", "gt_window_witness_below",
                           "soundFull_fails_at_witness", "orig_witness_run", "origSoundFull_fails_at_witness"],
     "streams": [{"name": "expcmp", "quick": 600, "thorough": 30000}],
     "rule": "cases of 2..10 `expcmp max_n x bound compare` ops; x: 0, powers of ten 1e-34..1, EPS+-1, dense in the leader range "
@@ -19,7 +19,8 @@ SPEC = {
                      "Mathlib: Real.exp, Real.sum_le_exp_of_nonneg, Real.add_one_le_exp (module Mathlib.Analysis.Complex.Exponential)"],
     "assumptions": ["exact GT soundness is FALSE for the reference algorithm (known finding C16-gt-rounding-window, Lean: "
                     "soundFull_fails_at_witness); proved instead: LT exact for x >= 0, GT up to (3*iterations + 3*bound) ulp for "
-                    "0 <= x <= 1, bound >= 2. Negative x and GT for x > 1 are NOT proved; they are judged on the implementation by the "
+                    "0 <= x <= 1, bound >= 2, and BOTH verdicts up to that slack for -1 <= x <= 1 (sound_slack_partial). Exact soundness "
+                    "for negative x and anything beyond lt_sound for |x| > 1 are NOT proved; they are judged on the implementation by the "
                     "enclosure oracle on the sampled inputs only",
                     "the property's precondition is read as bound >= e^|x| (checked exactly by the oracle per op)"],
     "explanation": "self-test (pallas worktree, reverted): `upper = rop + error_term` -> `rop` and `lower = rop - error_term` -> "
